@@ -82,8 +82,16 @@ def extract(repo="/repo", config="core", log=sys.stderr, keep=4):
     cdir = os.path.join(CACHE, "facts", config)
     out = os.path.join(cdir, th)
     okf = os.path.join(out, "OK")
-    lockp = os.path.join(CACHE, "lock-" + config)
+    # one lock for every configuration: they share the target directory, and deleting the members' fingerprints
+    # while another cargo run uses that directory makes the other run fail
+    lockp = os.path.join(CACHE, "lock-extract")
     t0 = time.time()
+    if os.path.exists(okf):  # fast path: no need to wait for somebody else's extraction
+        try:
+            os.utime(out, None)
+        except OSError:
+            pass
+        return out, dict(cached=True, tree_hash=th, source_files=nfiles, wall_s=0.0, config=config)
     with open(lockp, "w") as lk:
         fcntl.flock(lk, fcntl.LOCK_EX)
         if os.path.exists(okf):
